@@ -263,17 +263,25 @@ impl Walk {
     let queue = Mutex::new(entries.into_iter().collect::<VecDeque<_>>());
     // ... and fed to T controlled threads, each with a visitor built by the REAL closure factory
     let visitors: Vec<_> = (0..t).map(|_| mkf()).collect();
+    // as in `ignore`: a visitor returning Quit stops EVERY walker thread (quit_now flag), each
+    // thread noticing it when it next asks for work
+    let quit = std::sync::atomic::AtomicBool::new(false);
     std::thread::scope(|sc| {
       for (i, mut v) in visitors.into_iter().enumerate() {
         let queue = &queue;
+        let quit = &quit;
         sc.spawn(move || {
           register(i + 1);
           loop {
             point("take", String::new());
+            if quit.load(std::sync::atomic::Ordering::SeqCst) {
+              break;
+            }
             let Some(e) = queue.lock().unwrap().pop_front() else {
               break;
             };
             if matches!(v(e), WalkState::Quit) {
+              quit.store(true, std::sync::atomic::Ordering::SeqCst);
               break;
             }
           }
